@@ -383,14 +383,27 @@ func (c *checker) runCase(k *caseCtx) {
 	}
 	var scts []*builtSCT
 	var embedded [][]byte
+	var embB []*builtSCT // the embedded SCTs, element for element (an SCT may be embedded more than once)
 	for i, sp := range s.scts {
 		if direct && sp.kind == "unswapped" {
 			continue // identical to "ok" when nothing is swapped
 		}
+		if strings.HasPrefix(sp.kind, "repeat-") {
+			// the list is a list, not a set: the same serialized SCT embedded again
+			if len(embB) == 0 {
+				continue
+			}
+			src := embB[len(embB)-1]
+			if sp.kind == "repeat-first" {
+				src = embB[0]
+			}
+			embedded, embB = append(embedded, src.ser), append(embB, src)
+			continue
+		}
 		b := c.buildSCT(sp, baseTS+uint64(i)*1000, entries)
 		scts = append(scts, b)
 		if sp.kind != "not-embedded" {
-			embedded = append(embedded, b.ser)
+			embedded, embB = append(embedded, b.ser), append(embB, b)
 		}
 	}
 	sctListTLS, err := ref.AppendSCTList(nil, embedded)
@@ -495,12 +508,7 @@ func (c *checker) runCase(k *caseCtx) {
 	if len(Px.SCTList.SCTList) != 0 || len(Px.RawSCT) != 0 {
 		k.violCtx("", "sctlist-readback precertificate-has-scts", "a precertificate without SCT list extension parsed with a non-empty SCTList")
 	}
-	var embSCTs []*builtSCT
-	for _, b := range scts {
-		if b.spec.kind != "not-embedded" {
-			embSCTs = append(embSCTs, b)
-		}
-	}
+	embSCTs := embB
 	k.stage = "x509util.ParseSCTsFromSCTList"
 	for name, f := range map[string]func() ([]*ct.SignedCertificateTimestamp, error){
 		"ParseSCTsFromSCTList":     func() ([]*ct.SignedCertificateTimestamp, error) { return x509util.ParseSCTsFromSCTList(&Fx.SCTList) },
@@ -887,5 +895,8 @@ func wrongSets() [][]sctSpec {
 		{{kind: "ok"}, {kind: "poisoned-tbs"}, {kind: "unswapped"}, {kind: "ikh-root"}, {kind: "ikh-preissuer"}, {kind: "x509-entry"}},
 		{{kind: "timestamp+1"}, {kind: "other-log-key"}, {kind: "ext-differs", ext: 1}, {kind: "ok", ext: 1}, {kind: "not-embedded"}},
 		{{kind: "ok", rsa: true}, {kind: "poisoned-tbs", rsa: true}, {kind: "ikh-root", rsa: true}, {kind: "timestamp+1", rsa: true}},
+		{{kind: "ok"}, {kind: "repeat-previous"}},
+		{{kind: "ok"}, {kind: "ok", ext: 1}, {kind: "repeat-first"}},
+		{{kind: "ok"}, {kind: "ok", ext: 1}, {kind: "repeat-previous"}, {kind: "ok", ext: 2}, {kind: "repeat-first"}},
 	}
 }
